@@ -127,6 +127,12 @@ def synthetic_results():
 def gen_reports(rng, tier):
     for r in synthetic_results():
         yield dict(results=r, file='inputs/synthetic_1.py')
+    # paths with dots before the base name, and input files whose TEXT is an expression using builtins (it denotes the same dictionary)
+    b0 = dict(names=['g_1', 'bad'], games=[GOOD[1], BAD[2]])
+    for f in ('./inputs/x_1.py', '../x_2.py', 'runs.2024/inputs/my_games_3.py', 'inputs/v1.2/a.py', './a'):
+        yield dict(batch=b0, file=f)
+    yield dict(batch=b0, file='inputs/expr_1.py', text='dict({d})')
+    yield dict(batch=b0, file='inputs/expr_2.py', text='{{k: v for k, v in list({d}.items())[:len({d})]}}')
     for b in gen_batches(rng, tier):
         yield dict(batch=b, file=rng.choice(['inputs/example_games.py', 'inputs/board_3_copy.py', 'x.py', 'inputs/robot_47_w5_l5_r6_rb10.py', 'some/dir/a_1.py', 'inputs/happy.py']))
 
@@ -203,7 +209,7 @@ def check_report(inp, mods, rng=None):
     d = {n: copy.deepcopy(g) for n, g in zip(names, games)}
     # the input file is read into the games it textually denotes (and a second read gives the same)
     with MemFS() as fs:
-        fs.files[inp['file']] = repr(d)
+        fs.files[inp['file']] = inp.get('text', '{d}').format(d=repr(d))
         try:
             r1 = cr.read_dict_from_file(inp['file'])
             res = copy.deepcopy(inp['results']) if 'results' in inp else quiet(lambda: SC.timed(lambda: cr.run_games(r1), 30))
@@ -220,7 +226,7 @@ def check_report(inp, mods, rng=None):
     # the same through the command line: `-f X -s` saves the result of running what X denotes under X's name; without -s nothing is written
     for flags in (['-s'], []):
         with MemFS() as fs:
-            fs.files[inp['file']] = repr(d)
+            fs.files[inp['file']] = inp.get('text', '{d}').format(d=repr(d))
             try:
                 seen = run_main(cr, ['-f', inp['file']] + flags)
             except BaseException as e:   # noqa
